@@ -22,7 +22,8 @@ CLAIMED = {
             "TLA+ device specs (side=fw) checked by TLC; TLC-generated call histories rendered as Reduino scripts, transpiled, compiled against a mock Arduino core and executed; per-call pin waveforms and getter printouts validated by TLC",
             "The firmware contract of the four actuators is a TLA+ step relation (levels, delays up to <1 ms per delay, getters, clamping) that TLC "
             "model-checks and then uses to validate the traces of real firmware built from /repo's working tree, for literal and run-time "
-            "arguments; the same specs are bound to the host classes (C19), so conformance of both sides is agreement between them.",
+            "arguments (also as sensor reads in the argument position, and with the state queries made by a helper defined first); the host "
+            "classes are validated against the same specs on the same histories (in depth by C19), so conformance of both sides is agreement between them.",
             "Trusted: TLC, g++, the mock Arduino core (/verif/mock), the projection of pin events to waveforms. Known deviations are matched "
             "exactly by named spec predicates (known_findings.json). Bounded to the grids and generated histories.", "DESIGN.md §5 C04"),
     "C01": ("model_checking",
